@@ -5,7 +5,7 @@ import numpy as np
 import nets
 
 PID = "C14"
-THEOREMS = ["downstream_spec", "upstream_sum_spec", "fill_up_spec", "fill_down_spec", "window_down_spec",
+THEOREMS = ["downstream_spec", "upstream_sum_spec", "fill_up_spec", "fill_down_pairs", "merge_fold_closed", "fill_down_spec", "window_down_spec",
             "window_up_spec", "stream_distance_spec", "hand_spec", "floodplain_spec"]
 RULE = ("loop-free closed graphs on n<=4 cells (n<=5 thorough) x small integer fields with nodata x every operator "
         "(downstream, upstream_sum, fillnodata up / down min,max,sum, window n=0..3 with and without stream-order "
@@ -39,6 +39,11 @@ def _uparea(ds):
 def _main(ds, upa):
     from props_c08 import _main as m
     return m(ds, upa, 0)
+
+
+def corpus():
+    # repaired defect: a partial sum equal to the nodata value (5 + 2 = 7) was taken for an empty cell
+    return [{"k": 1403, "args": [[0, -1, 0, 0, 0], [0, 4, 2, 3], [7, 1, 5, 2, 3], [7], [1], [2]], "group": "corpus-sum-equals-nodata"}]
 
 
 def _cases_for(ds, rng, tag, api=False):
